@@ -1,4 +1,305 @@
+//! C10 — multipart/form-data: executes `ohkami_lib::serde_multipart::from_bytes` on the bytes made from the
+//! token wire that the TLA+ operator `EncodeForm` (specs/Multipart.tla) emitted, into a target struct selected by
+//! tag, and projects the decoded struct back onto the spec's vocabulary.
+//!
+//! Trusted here: the token -> bytes table (`Cx::bytes_of`), its inverse (`Cx::tokens_of`), the struct catalogue.
+//! Nothing in this file decides: Trace_Multipart.tla does.
+use crate::util::{self, Rng};
+use ohkami_lib::serde_multipart::{from_bytes, File};
+use serde::Deserialize;
 use serde_json::{json, Value};
-pub fn run(_scn: &Value) -> Value { json!({"kind": "unimplemented"}) }
-#[allow(dead_code)]
-pub fn gen(_rng: &mut crate::util::Rng, i: usize) -> Value { json!({"id": i}) }
+
+// ------------------------------------------------------------------------------------------------ concretisation
+const BWORDS: &[&str] = &["b", "Xy9", "WebKitFormBoundary7MA4YWxkTrZu0gW", "_.:=?+()'"];
+const XREPS: &[&str] = &["x", "A", " ", "\"", ";", "=", "\t", "z", "%", "\\"];
+const U8REPS: &[&str] = &["é", "あ", "😀"];
+const HIREPS: &[u8] = &[0xFF, 0x80, 0xFE, 0xC0];
+const NAMES: &[(&str, &str)] = &[("a", "b"), ("user-name", "pet photos"), ("x; filename=y", "é[]")];
+const F1REPS: &[&str] = &["f.txt", "é 1.png", "a;b=c.tar.gz", "C:\\dir\\f.bin"];
+const F2REPS: &[&str] = &["g.md", "x'y.jpg", "noext", "%22q.pdf"];
+const M1REPS: &[&str] = &["application/octet-stream", "image/png"];
+const M2REPS: &[&str] = &["text/plain; charset=UTF-8", "text/markdown"];
+const MTXTREPS: &[&str] = &["text/plain", "text/plain; charset=UTF-8"];
+const CTEREPS: &[&str] = &["binary", "8bit", "7bit"];
+
+pub struct Cx {
+    pub v: usize, bword: &'static str, x: &'static str, u8c: &'static str, hi: u8,
+    f1: &'static str, f2: &'static str, m1: &'static str, m2: &'static str, mtxt: &'static str, cte: &'static str,
+    base: usize, len: usize, pub inrange: bool, pub utf8ok: bool,
+}
+impl Cx {
+    pub fn new(cv: u64) -> Cx {
+        let mut r = Rng::new(cv ^ 0xC10);
+        Cx { v: r.below(NAMES.len()), bword: BWORDS[r.below(BWORDS.len())], x: XREPS[r.below(XREPS.len())], u8c: U8REPS[r.below(U8REPS.len())],
+             hi: HIREPS[r.below(HIREPS.len())], f1: F1REPS[r.below(F1REPS.len())], f2: F2REPS[r.below(F2REPS.len())],
+             m1: M1REPS[r.below(M1REPS.len())], m2: M2REPS[r.below(M2REPS.len())], mtxt: MTXTREPS[r.below(MTXTREPS.len())],
+             cte: CTEREPS[r.below(CTEREPS.len())], base: 0, len: 0, inrange: true, utf8ok: true }
+    }
+    /// token -> bytes. `None`: a token outside the vocabulary (tool error).
+    fn bytes_of(&self, t: &str, out: &mut Vec<u8>) -> bool {
+        let s: &str = match t {
+            "-" => "-", "CR" => "\r", "LF" => "\n", "NUL" => "\0", "x" => self.x, "U8" => self.u8c, "b" => self.bword,
+            "HI" => { out.push(self.hi); return true }
+            "Q" => "\"", ": " => ": ", "; " => "; ", "form-data" => "form-data", "name=" => "name=", "filename=" => "filename=",
+            "Content-Disposition" | "content-disposition" | "CONTENT-DISPOSITION" | "Content-Type" | "content-type" | "CONTENT-TYPE"
+            | "Content-Transfer-Encoding" | "content-transfer-encoding" | "CONTENT-TRANSFER-ENCODING" => t,
+            "binary" => self.cte,
+            "na" => NAMES[self.v].0, "nb" => NAMES[self.v].1,
+            "F0" => "", "F1" => self.f1, "F2" => self.f2,
+            "M1" => self.m1, "M2" => self.m2, "MTXT" => self.mtxt,
+            _ => return false,
+        };
+        out.extend_from_slice(s.as_bytes()); true
+    }
+    /// bytes -> content tokens (inverse of the table; bytes the table cannot produce become "?hh")
+    fn tokens_of(&self, b: &[u8]) -> Vec<Value> {
+        let mut out = vec![]; let mut i = 0;
+        while i < b.len() {
+            let r = &b[i..];
+            let (tok, n): (String, usize) =
+                if r.starts_with(self.bword.as_bytes()) { ("b".into(), self.bword.len()) }
+                else if r.starts_with(self.u8c.as_bytes()) { ("U8".into(), self.u8c.len()) }
+                else if r.starts_with(self.x.as_bytes()) { ("x".into(), self.x.len()) }
+                else { match r[0] { b'-' => ("-".into(), 1), b'\r' => ("CR".into(), 1), b'\n' => ("LF".into(), 1), 0 => ("NUL".into(), 1),
+                                    c if c == self.hi => ("HI".into(), 1), c => (format!("?{:02x}", c), 1) } };
+            out.push(json!(tok)); i += n;
+        }
+        out
+    }
+    fn fname_id(&self, s: &str) -> String { if s.is_empty() { "F0".into() } else if s == self.f1 { "F1".into() } else if s == self.f2 { "F2".into() } else { format!("?{}", util::clip(s, 40)) } }
+    fn mt_id(&self, s: &str) -> String { if s.is_empty() { "M0".into() } else if s == self.m1 { "M1".into() } else if s == self.m2 { "M2".into() } else if s == "text/plain" { "MTP".into() } else { format!("?{}", util::clip(s, 40)) } }
+
+    /// range check WITHOUT touching the bytes; an empty slice is inside by convention (the decoder uses static "" for absent headers)
+    fn inside(&mut self, p: *const u8, n: usize) -> bool {
+        if n == 0 { return true }
+        let a = p as usize;
+        let ok = a >= self.base && a.checked_add(n).map_or(false, |e| e <= self.base + self.len);
+        if !ok { self.inrange = false }
+        ok
+    }
+    fn str_checked<'a>(&mut self, s: &'a str) -> Option<&'a str> {
+        if !self.inside(s.as_ptr(), s.len()) { return None }
+        match std::str::from_utf8(s.as_bytes()) { Ok(x) => Some(x), Err(_) => { self.utf8ok = false; None } }
+    }
+    fn file(&mut self, f: &File<'_>) -> Value {
+        let fname = match self.str_checked(f.filename) { Some(s) => self.fname_id(s), None => "?wild".into() };
+        let mt = match self.str_checked(f.mimetype) { Some(s) => self.mt_id(s), None => "?wild".into() };
+        let content = if self.inside(f.content.as_ptr(), f.content.len()) { self.tokens_of(f.content) } else { vec![json!("?wild")] };
+        json!({"fname": fname, "mt": mt, "content": content})
+    }
+}
+
+fn fobs(t: &str, s: Vec<Value>, fs: Vec<Value>) -> Value { json!({"t": t, "s": s, "fs": fs}) }
+
+// ------------------------------------------------------------------------------------------------ target catalogue
+pub trait Fld<'de>: Deserialize<'de> + Sized { fn proj(&self, cx: &mut Cx) -> Value; fn dflt() -> Self; }
+impl<'de: 'a, 'a> Fld<'de> for &'a str {
+    fn proj(&self, cx: &mut Cx) -> Value { match cx.str_checked(self) { Some(s) => fobs("str", cx.tokens_of(s.as_bytes()), vec![]), None => fobs("str", vec![json!("?wild")], vec![]) } }
+    fn dflt() -> Self { "" }
+}
+impl<'de> Fld<'de> for String {
+    fn proj(&self, cx: &mut Cx) -> Value { if std::str::from_utf8(self.as_bytes()).is_err() { cx.utf8ok = false } fobs("str", cx.tokens_of(self.as_bytes()), vec![]) }
+    fn dflt() -> Self { String::new() }
+}
+impl<'de: 'a, 'a> Fld<'de> for Option<&'a str> {
+    fn proj(&self, cx: &mut Cx) -> Value { match self { None => fobs("none", vec![], vec![]), Some(s) => <&str as Fld>::proj(s, cx) } }
+    fn dflt() -> Self { None }
+}
+impl<'de: 'a, 'a> Fld<'de> for File<'a> {
+    fn proj(&self, cx: &mut Cx) -> Value { let f = cx.file(self); fobs("file", vec![], vec![f]) }
+    fn dflt() -> Self { unreachable!("File has no default: never selected with dflt") }
+}
+impl<'de: 'a, 'a> Fld<'de> for Option<File<'a>> {
+    fn proj(&self, cx: &mut Cx) -> Value { match self { None => fobs("none", vec![], vec![]), Some(f) => { let f = cx.file(f); fobs("file", vec![], vec![f]) } } }
+    fn dflt() -> Self { None }
+}
+impl<'de: 'a, 'a> Fld<'de> for Vec<File<'a>> {
+    fn proj(&self, cx: &mut Cx) -> Value {
+        // a wild Vec (length beyond anything the input could hold) is reported without walking it
+        if self.len() > cx.len + 1 { cx.inrange = false; return fobs("files", vec![], vec![json!({"fname": "?wild", "mt": "?wild", "content": []})]) }
+        let fs = self.iter().map(|f| cx.file(f)).collect(); fobs("files", vec![], fs)
+    }
+    fn dflt() -> Self { Vec::new() }
+}
+
+macro_rules! forms { ($m:ident, $na:literal, $nb:literal) => { pub mod $m {
+    use super::Fld; use serde::Deserialize;
+    #[derive(Deserialize)] #[serde(bound(deserialize = "A: Fld<'de>, B: Fld<'de>"))]
+    pub struct F2<A, B> { #[serde(rename = $na)] pub a: A, #[serde(rename = $nb)] pub b: B }
+    #[derive(Deserialize)] #[serde(bound(deserialize = "A: Fld<'de>"))]
+    pub struct FA<A> { #[serde(rename = $na)] pub a: A }
+    #[derive(Deserialize)] #[serde(bound(deserialize = "B: Fld<'de>"))]
+    pub struct FB<B> { #[serde(rename = $nb)] pub b: B }
+    #[derive(Deserialize)] pub struct F0 {}
+    #[derive(Deserialize)] #[serde(bound(deserialize = "A: Fld<'de>, B: Fld<'de>"))]
+    pub struct D2<A, B> { #[serde(rename = $na, default = "A::dflt")] pub a: A, #[serde(rename = $nb, default = "B::dflt")] pub b: B }
+    #[derive(Deserialize)] #[serde(bound(deserialize = "A: Fld<'de>"))]
+    pub struct DA<A> { #[serde(rename = $na, default = "A::dflt")] pub a: A }
+    #[derive(Deserialize)] #[serde(bound(deserialize = "B: Fld<'de>"))]
+    pub struct DB<B> { #[serde(rename = $nb, default = "B::dflt")] pub b: B }
+} } }
+forms!(n0, "a", "b");
+forms!(n1, "user-name", "pet photos");
+forms!(n2, "x; filename=y", "é[]");
+
+type R = Result<(Value, Value), String>;
+fn absent() -> Value { fobs("absent", vec![], vec![]) }
+
+macro_rules! per_variant { ($cx:expr, $dflt:expr, $input:expr, |$f:ident : $plain:ident | $dfl:ident < $($g:ty),* >| $body:expr) => {{
+    macro_rules! one { ($m:ident) => { if $dflt { from_bytes::<$m::$dfl<$($g),*>>($input).map_err(|e| e.to_string()).map(|$f| $body) }
+                                       else { from_bytes::<$m::$plain<$($g),*>>($input).map_err(|e| e.to_string()).map(|$f| $body) } } }
+    match $cx.v { 0 => one!(n0), 1 => one!(n1), _ => one!(n2) }
+}} }
+
+fn fin_ab<'de, A: Fld<'de>, B: Fld<'de>>(cx: &mut Cx, dflt: bool, input: &'de [u8]) -> R {
+    per_variant!(cx, dflt, input, |f: F2 | D2<A, B>| (f.a.proj(cx), f.b.proj(cx)))
+}
+fn fin_a<'de, A: Fld<'de>>(cx: &mut Cx, dflt: bool, input: &'de [u8]) -> R {
+    per_variant!(cx, dflt, input, |f: FA | DA<A>| (f.a.proj(cx), absent()))
+}
+fn fin_b<'de, B: Fld<'de>>(cx: &mut Cx, dflt: bool, input: &'de [u8]) -> R {
+    per_variant!(cx, dflt, input, |f: FB | DB<B>| (absent(), f.b.proj(cx)))
+}
+fn fin_0(cx: &mut Cx, input: &[u8]) -> R {
+    let r = match cx.v { 0 => from_bytes::<n0::F0>(input).map(|_| ()), 1 => from_bytes::<n1::F0>(input).map(|_| ()), _ => from_bytes::<n2::F0>(input).map(|_| ()) };
+    r.map_err(|e| e.to_string()).map(|_| (absent(), absent()))
+}
+fn level_b<'de, A: Fld<'de>>(cx: &mut Cx, tb: &str, dflt: bool, input: &'de [u8]) -> Option<R> {
+    Some(match tb {
+        "none" => fin_a::<A>(cx, dflt, input),
+        "str" => fin_ab::<A, &'de str>(cx, dflt, input), "string" => fin_ab::<A, String>(cx, dflt, input),
+        "optstr" => fin_ab::<A, Option<&'de str>>(cx, dflt, input), "file" => fin_ab::<A, File<'de>>(cx, dflt, input),
+        "optfile" => fin_ab::<A, Option<File<'de>>>(cx, dflt, input), "vecfile" => fin_ab::<A, Vec<File<'de>>>(cx, dflt, input),
+        _ => return None })
+}
+fn level_b_noa<'de>(cx: &mut Cx, tb: &str, dflt: bool, input: &'de [u8]) -> Option<R> {
+    Some(match tb {
+        "none" => fin_0(cx, input),
+        "str" => fin_b::<&'de str>(cx, dflt, input), "string" => fin_b::<String>(cx, dflt, input),
+        "optstr" => fin_b::<Option<&'de str>>(cx, dflt, input), "file" => fin_b::<File<'de>>(cx, dflt, input),
+        "optfile" => fin_b::<Option<File<'de>>>(cx, dflt, input), "vecfile" => fin_b::<Vec<File<'de>>>(cx, dflt, input),
+        _ => return None })
+}
+fn level_a<'de>(cx: &mut Cx, ta: &str, tb: &str, dflt: bool, input: &'de [u8]) -> Option<R> {
+    match ta {
+        "none" => level_b_noa(cx, tb, dflt, input),
+        "str" => level_b::<&'de str>(cx, tb, dflt, input), "string" => level_b::<String>(cx, tb, dflt, input),
+        "optstr" => level_b::<Option<&'de str>>(cx, tb, dflt, input), "file" => level_b::<File<'de>>(cx, tb, dflt, input),
+        "optfile" => level_b::<Option<File<'de>>>(cx, tb, dflt, input), "vecfile" => level_b::<Vec<File<'de>>>(cx, tb, dflt, input),
+        _ => None }
+}
+
+/// short class of a decoder error message (for signatures; the message itself is echoed in `msg`)
+pub fn err_class(m: &str) -> String {
+    for (pat, c) in [("duplicate field", "duplicate-field"), ("missing field", "missing-field"), ("invalid type", "invalid-type"), ("invalid length", "invalid-length"),
+                     ("unknown field", "unknown-field"), ("unknown variant", "unknown-variant"), ("invalid value", "invalid-value"),
+                     ("multipart/mixed", "NotSupportedMultipartMixed"), ("Expected a single file", "UnexpectedMultipleFiles"), ("Expected multipart boundary", "ExpectedBoundary"),
+                     ("Missing CRLF", "MissingCRLF"), ("Expected file but found", "ExpectedFile"), ("Expected non-file field", "ExpectedNonFileField"),
+                     ("Expected `filename", "ExpectedFilename"), ("Expected `Content-Type` or", "ExpectedValidHeader"), ("Expected `form-data", "ExpectedFormdataAndName"),
+                     ("Invalid filename", "InvalidFilename"), ("Invalid mime type", "InvalidMimeType"), ("Invalid `name`", "InvalidPartName"), ("Expected a non-file field to be", "NotUTF8NonFileField")] {
+        if m.contains(pat) { return c.into() }
+    }
+    util::clip(m, 40)
+}
+
+pub fn concretise(cx: &Cx, wire: &[Value]) -> Result<Vec<u8>, String> {
+    let mut bytes = Vec::new();
+    for t in wire { let t = t.as_str().ok_or("wire token is not a string")?; if !cx.bytes_of(t, &mut bytes) { return Err(format!("unknown wire token {t:?}")) } }
+    Ok(bytes)
+}
+
+pub fn run(scn: &Value) -> Value {
+    let cv = scn.get("cv").and_then(|v| v.as_u64()).unwrap_or_else(|| scn.get("id").and_then(|v| v.as_u64()).unwrap_or(0));
+    let mut cx = Cx::new(cv);
+    let bytes = match concretise(&cx, util::arr(&scn["wire"])) { Ok(b) => b, Err(e) => return json!({"kind": "tool-error", "msg": e}) };
+    // the decoder borrows from exactly this buffer (no slack behind it that a wild slice could silently stay inside)
+    let input: Box<[u8]> = bytes.into_boxed_slice();
+    cx.base = input.as_ptr() as usize; cx.len = input.len();
+    let (ta, tb, dflt) = (util::s(&scn["target"]["a"]), util::s(&scn["target"]["b"]), scn["target"]["dflt"].as_bool().unwrap_or(false));
+    if dflt && (ta == "file" || tb == "file") { return json!({"kind": "tool-error", "msg": "File has no default"}) }
+    let hex = util::hex(&input);
+    let Some(r) = level_a(&mut cx, ta, tb, dflt, &input) else { return json!({"kind": "tool-error", "msg": format!("unknown target {ta}/{tb}")}) };
+    match r {
+        Ok((a, b)) => json!({"kind": "value", "a": a, "b": b, "inrange": cx.inrange, "utf8ok": cx.utf8ok, "where": "", "err": "", "errfield": "", "hex": hex}),
+        Err(m) => {
+            let m = String::from_utf8_lossy(m.as_bytes()).into_owned();   // never let invalid UTF-8 into the observation line
+            // which declared field the message names (serde: duplicate field `x`, missing field `x`)
+            let ef = if m.contains(&format!("`{}`", NAMES[cx.v].0)) { "a" } else if m.contains(&format!("`{}`", NAMES[cx.v].1)) { "b" } else { "" };
+            json!({"kind": "error", "a": absent(), "b": absent(), "inrange": true, "utf8ok": true, "where": "", "err": err_class(&m), "errfield": ef, "msg": util::clip(&m, 160), "hex": hex})
+        }
+    }
+}
+
+// ------------------------------------------------------------------------------------------------ random scenarios
+// Same vocabulary, beyond TLC's bounds: up to 6 parts, contents up to 14 tokens, boundaries up to 5 tokens, any option mix.
+// The wire is produced by a second encoder written here; Trace_Multipart re-encodes with EncodeForm and rejects the line
+// (tool error) if the two differ, so the specification's encoder stays the authority.
+fn hname(h: &str, case: &str) -> String { match case { "lower" => h.to_ascii_lowercase(), "upper" => h.to_ascii_uppercase(), _ => h.to_string() } }
+fn contains(h: &[String], n: &[String]) -> bool { n.len() <= h.len() && h.windows(n.len()).any(|w| w == n) }
+fn push(w: &mut Vec<String>, ts: &[&str]) { w.extend(ts.iter().map(|s| s.to_string())) }
+
+pub fn encode(form: &[Value], o: &Value) -> Vec<String> {
+    let bnd: Vec<String> = util::arr(&o["bnd"]).iter().map(|v| util::s(v).to_string()).collect();
+    let case = util::s(&o["hcase"]);
+    let (ctfirst, textct, cte, fin) = (o["ctfirst"] == json!(true), o["textct"] == json!(true), o["cte"] == json!(true), o["fin"] == json!(true));
+    let mut w: Vec<String> = vec![];
+    let dashb = |w: &mut Vec<String>| { push(w, &["-", "-"]); w.extend(bnd.iter().cloned()) };
+    for (i, p) in form.iter().enumerate() {
+        if i > 0 { push(&mut w, &["CR", "LF"]) }
+        dashb(&mut w); push(&mut w, &["CR", "LF"]);
+        let file = util::s(&p["kind"]) == "file";
+        let mut cd: Vec<String> = vec![hname("Content-Disposition", case)];
+        push(&mut cd, &[": ", "form-data", "; ", "name=", "Q", util::s(&p["name"]), "Q"]);
+        if file { push(&mut cd, &["; ", "filename=", "Q", util::s(&p["fname"]), "Q"]) }
+        push(&mut cd, &["CR", "LF"]);
+        let mut ct: Vec<String> = vec![];
+        let m = if file { let m = util::s(&p["mt"]); if m == "M0" { None } else { Some(m) } } else if textct { Some("MTXT") } else { None };
+        if let Some(m) = m { ct.push(hname("Content-Type", case)); push(&mut ct, &[": ", m, "CR", "LF"]) }
+        if ctfirst { w.extend(ct); w.extend(cd) } else { w.extend(cd); w.extend(ct) }
+        if cte { w.push(hname("Content-Transfer-Encoding", case)); push(&mut w, &[": ", "binary", "CR", "LF"]) }
+        push(&mut w, &["CR", "LF"]);
+        w.extend(util::arr(&p["content"]).iter().map(|v| util::s(v).to_string()));
+    }
+    if !form.is_empty() { push(&mut w, &["CR", "LF"]) }
+    dashb(&mut w); push(&mut w, &["-", "-"]);
+    if fin { push(&mut w, &["CR", "LF"]) }
+    w
+}
+
+pub fn gen(rng: &mut Rng, i: usize) -> Value {
+    const TA: &[&str] = &["x", "CR", "LF", "-", "NUL", "U8", "b"];
+    const TYPES: &[&str] = &["none", "str", "string", "optstr", "file", "optfile", "vecfile"];
+    let nb = rng.range(1, 5);
+    let mut bnd: Vec<String> = (0..nb).map(|_| if rng.chance(1, 3) { "-" } else { "b" }.to_string()).collect();
+    if rng.chance(1, 8) { bnd = vec!["-".into(); nb] }
+    let mut dashb = vec!["-".to_string(), "-".to_string()]; dashb.extend(bnd.iter().cloned());
+    let nparts = if rng.chance(1, 20) { 0 } else { rng.range(1, 6) };
+    let mut form = vec![];
+    // a name bias so that runs of same-name files, split runs and mixed shapes all occur
+    let bias = rng.below(3);
+    for _ in 0..nparts {
+        let name = match bias { 0 => "na", 1 => if rng.chance(3, 4) { "na" } else { "nb" }, _ => if rng.chance(1, 2) { "na" } else { "nb" } };
+        let file = rng.chance(2, 3);
+        let content: Vec<String> = loop {
+            let n = match rng.below(6) { 0 => 0, 1 => 1, 2 => 2, 3 => 3, _ => rng.range(4, 14) };
+            let mut c: Vec<String> = (0..n).map(|_| if file && rng.chance(1, 9) { "HI" } else { TA[rng.below(TA.len())] }.to_string()).collect();
+            // bias towards near-delimiters: CRLF, dashes and boundary letters at the end
+            if n >= 2 && rng.chance(1, 3) { let k = rng.range(1, n.min(2 + nb)); let tail: Vec<String> = ["CR", "LF"].iter().map(|s| s.to_string()).chain(dashb.iter().cloned()).take(k).collect(); let l = c.len(); c[l - k..].clone_from_slice(&tail); }
+            if !contains(&c, &dashb) { break c }
+        };
+        if file {
+            let conv = rng.chance(1, 6);
+            let fname = if conv || rng.chance(1, 8) { "F0" } else if rng.chance(1, 2) { "F1" } else { "F2" };
+            let mt = *rng.pick(&["M0", "M1", "M2"]);
+            form.push(json!({"kind": "file", "name": name, "fname": fname, "mt": mt, "content": if conv { vec![] } else { content }}));
+        } else {
+            form.push(json!({"kind": "text", "name": name, "fname": "-", "mt": "-", "content": content}));
+        }
+    }
+    let opts = json!({"bnd": bnd, "hcase": *rng.pick(&["canon", "lower", "upper"]), "ctfirst": rng.chance(1, 2), "textct": rng.chance(1, 2), "cte": rng.chance(1, 3), "fin": rng.chance(1, 2)});
+    let dflt = rng.chance(1, 4);
+    let ty = |rng: &mut Rng| loop { let t = *rng.pick(TYPES); if !(dflt && t == "file") { break t } };
+    let (ta, tb) = (ty(rng), ty(rng));
+    let wire = encode(&form, &opts);
+    json!({"fam": "random", "form": form, "opts": opts, "target": {"a": ta, "b": tb, "dflt": dflt}, "wire": wire, "cv": (rng.next() % 1_000_000) as u64, "id": i})
+}
